@@ -9,7 +9,7 @@ from vf.props.c02 import site_of
 
 PROPERTY = 'C01'
 RULE = ('cases = (dialect, text) accepted by parse_sql: corpus statements, random grammar derivations (stratified over '
-        'statement kinds), accepted token mutations, option-list statements (USING / SET / PARAMETERS) with string values over the characters that need escaping; judged: print does not raise, printed text is accepted, re-parsed '
+        'statement kinds), accepted token mutations, all production-pair sentences of the live grammars (bounded-exhaustive), option-list statements (USING / SET / PARAMETERS) with string values over the characters that need escaping; judged: print does not raise, printed text is accepted, re-parsed '
         'tree structurally identical (reflection over every field) and to_tree-identical, printing idempotent, same '
         'for copy(); non-trivial = accepted and (>= 4 AST nodes or a quoted identifier / string literal / user '
         'parentheses / MindsDB command); distinct by whitespace-normalised text per dialect')
@@ -343,4 +343,17 @@ def run_shard(col, k, nshards, tier, seed):
             c = {'dialect': x['dialect'], 'sql': x['sql'], 'origin': 'corpus'}
             for rec in judge(c, col):
                 col.fail(rec, c)
+    # bounded-exhaustive: every production of the live grammars with every alternative of each of its nonterminals
+    # (wild: keyword-spelled names, statements as sub-queries ... are in; the random derivations below are tame)
+    n = 0
+    for d in corpus.DIALECTS:
+        ps = grammar.get(d).pair_sentences()
+        n += len(ps)
+        for label, toks in ps[k::nshards]:
+            c = {'dialect': d, 'sql': ' '.join(toks), 'origin': 'pairs'}
+            for rec in judge(c, col):
+                col.fail(rec, c)
+    if k == 0:
+        col.exhaustive_parts.append(f'all {n} production-pair sentences of the three grammars (every production with every '
+                                    'alternative of each of its nonterminals, minimal elsewhere)')
     hyp.explore(col, cases(), judge, N[tier], seed)
